@@ -236,6 +236,39 @@ def run_case(case):
             else:
                 s = solver_for(p, cfg).minimize(p.length_idx)
             r.update(optimum=None if s is None else int(s[p.length_idx]), invalid=0 if s is not None and v_golomb(n, [int(v) for v in s]) else 1)
+        elif model == "golomb_accept":
+            # a known optimal ruler (literature) is a solution of the model: fix the marks, the solver must complete it
+            from nucs.examples.golomb.golomb_problem import GolombProblem, index
+            marks = params[0]
+            n = len(marks)
+            p = GolombProblem(n, sym)
+            for j in range(1, n):
+                p.shr_domains_lst[index(n, 0, j)] = [marks[j], marks[j]]
+            sols = enumerate_all(p, cfg, 1, limit=2)
+            r.update(count=len(sols), invalid=sum(1 for s in sols if not v_golomb(n, s)), distinct=len({tuple(s) for s in sols}))
+        elif model == "golomb_enum":
+            # every ruler with n marks and length <= L, against a brute-force enumeration
+            from nucs.examples.golomb.golomb_problem import GolombProblem
+            n, L = params
+            p = GolombProblem(n, sym)
+            p.shr_domains_lst[p.length_idx] = [p.shr_domains_lst[p.length_idx][0], L]
+            if opt.get("custom_alg"):
+                # the consistency algorithm shipped with the example, registered through the public API, used for enumeration
+                from nucs.examples.golomb.golomb_problem import golomb_consistency_algorithm
+                from nucs.solvers.backtrack_solver import BacktrackSolver
+                from nucs.solvers.consistency_algorithms import register_consistency_algorithm
+                ca = register_consistency_algorithm(golomb_consistency_algorithm)
+                sols = [[int(v) for v in x] for x in BacktrackSolver(p, consistency_alg_idx=ca, log_level="ERROR").solve()]
+            else:
+                sols = enumerate_all(p, cfg, procs)
+            r.update(count=len(sols), invalid=sum(1 for s in sols if not v_golomb(n, s)), distinct=len({tuple(s) for s in sols}))
+            ref = 0
+            for rest in itertools.combinations(range(1, L + 1), n - 1):
+                m = (0,) + rest
+                ds = [m[j] - m[i] for i in range(n) for j in range(i + 1, n)]
+                if len(set(ds)) == len(ds) and (not sym or m[1] - m[0] < m[-1] - m[-2]):
+                    ref += 1
+            r["reference_count"] = ref
         elif model == "bibd":
             from nucs.examples.bibd.bibd_problem import BIBDProblem
             v, b, rr, k, l = params
